@@ -177,9 +177,32 @@ type Harness struct {
 
 var ErrNotQuiescent = errors.New("server background work did not finish within the watchdog")
 
+// restingGoroutines is the number of goroutines to count as "nothing of this server is running".
+// A goroutine of an earlier case that is still winding down when the next server is created (seen
+// under load) would raise that number by one for the whole case, and every wait for quiescence in it
+// would return one goroutine too early: when more goroutines are alive than the smallest resting
+// number seen so far, they get a moment to end before the count is taken.
+var (
+	floorMu sync.Mutex
+	floorG  int
+)
+
+func restingGoroutines() int {
+	floorMu.Lock()
+	defer floorMu.Unlock()
+	n := runtime.NumGoroutine()
+	if floorG != 0 && n > floorG {
+		for deadline := time.Now().Add(50 * time.Millisecond); n > floorG && time.Now().Before(deadline); n = runtime.NumGoroutine() {
+			time.Sleep(50 * time.Microsecond)
+		}
+	}
+	floorG = n
+	return n
+}
+
 // New creates a server, connects the stub and performs initialize/initialized.
 func New(o Options) (*Harness, error) {
-	h := &Harness{S: server.NewServer(), C: &Client{cfg: o.Config}, baseline: runtime.NumGoroutine()}
+	h := &Harness{S: server.NewServer(), C: &Client{cfg: o.Config}, baseline: restingGoroutines()}
 	h.S.SetClient(h.C)
 	params := &protocol.InitializeParams{InitializationOptions: o.InitOptions}
 	if o.SupportsConfiguration {
@@ -313,11 +336,20 @@ func (h *Harness) PushConfiguration(settings any) error {
 
 // OpenAndWait opens a document and returns the diagnostics published for it.
 func (h *Harness) OpenAndWait(uri, text string) ([]protocol.Diagnostic, error) {
+	before := h.C.PubCount()
 	if err := h.Open(uri, text); err != nil {
 		return nil, err
 	}
 	if err := h.Quiesce(); err != nil {
 		return nil, err
+	}
+	// every didOpen is answered by one publication (an empty one when diagnostics are switched off):
+	// should none have arrived yet, it is waited for rather than an older one taken for it
+	for deadline := time.Now().Add(5 * time.Second); h.C.PubCount() == before && time.Now().Before(deadline); {
+		time.Sleep(200 * time.Microsecond)
+		if err := h.Quiesce(); err != nil {
+			return nil, err
+		}
 	}
 	d, _ := h.C.LastDiagnostics(uri)
 	return d, nil
